@@ -98,6 +98,12 @@ def relation_cases(rnd):
         v = rnd.choice([0, 1, 5, 100, -3])
         for r in (v - 1, v, v + 1):
             yield (f"{op} int", {"type": "value", "key": "k", "op": op, "value": v}, r, REL[op](r, v), "below" if r < v else ("at" if r == v else "above"))
+        # the same number as a float, in the same process (a policy file may say 5 in one clause and 5.0 in another)
+        fv = float(v)
+        for r in (fv - 0.5, fv, fv + 0.5):
+            yield (f"{op} float", {"type": "value", "key": "k", "op": op, "value": fv}, r, REL[op](r, fv), "below" if r < fv else ("at" if r == fv else "above"))
+        for r in (v - 1, v, v + 1):
+            yield (f"{op} int-again", {"type": "value", "key": "k", "op": op, "value": v}, r, REL[op](r, v), "below" if r < v else ("at" if r == v else "above"))
         sv = rnd.choice(["m", "abc", "b", "Z", "ab"])
         for r in (sv[:-1], sv, sv + "a", "a", "zz"):
             yield (f"{op} string", {"type": "value", "key": "k", "op": op, "value": sv}, r, REL[op](r, sv), "below" if r < sv else ("at" if r == sv else "above"))
